@@ -9,8 +9,9 @@ several instances on one storage (the daemon's store and the short-lived store t
 opens for `update_snapshots`), so the instance is an explicit parameter `i` of every operation.
 
 `execute_opt_command` (store.rs:271-512) is modelled *step by step*: the body of the closure
-is the list of phases `phLoad, phCatchUp, phProcess, phCache, phSnapshot, phFinish`, each
-an atomic function on `(entity, thread-local control state)`.  The sequential big-step
+is the list of phases `phLoad, phCatchUp, phDecide, phStore, phCache, phSnapshot, phFinish`
+(`phProcess` = `phStore ∘ phDecide`), each an atomic function on `(entity, thread-local
+control state)`.  The sequential big-step
 `execOpt` is by definition their composition; `Sys/Interleave.lean` interleaves the same
 phases of different threads.
 
@@ -161,6 +162,9 @@ inductive Local (A : Agg) where
   | start
   | loaded (agg : Ver A) (changed : Bool)
   | processed (agg : Ver A) (changed : Bool) (res : Option A.Err)
+  /-- between the decision to store `pending` under `command-<pending.version>.json` and the
+  write itself -/
+  | decided (agg : Ver A) (changed : Bool) (res : Option A.Err) (pending : Stored A)
   | done (out : Out A)
 
 /-- store.rs:284-346: cache, else snapshot, else init command. -/
@@ -234,6 +238,39 @@ def phProcess {A : Agg} (cmd : Option (Sent A)) (wfail : Bool) (p : Ent A × Loc
               else ({ p.1 with kv := p.1.kv.putCmd v.version sc }, .processed v' ch none)
   | _ => p
 
+/-- `phProcess` in two atomic steps: first everything up to the decision what to write
+(key check store.rs:401, `process_command`, `apply_command`, pre-save listener) … -/
+def phDecide {A : Agg} (cmd : Option (Sent A)) (p : Ent A × Local A) : Ent A × Local A :=
+  match p.2 with
+  | .loaded v ch =>
+    match cmd with
+    | none => (p.1, .processed v ch none)
+    | some c =>
+      if p.1.kv.hasCmd v.version then (p.1, .done .fatal)
+      else
+        match A.process v.st c.details with
+        | .error e =>
+          (p.1, .decided ⟨v.version + 1, v.st⟩ true (some e)
+                  ⟨c.actor, v.version, some c.details, .error e⟩)
+        | .ok [] => (p.1, .processed v ch none)
+        | .ok (ev :: evs) =>
+          let sc : Stored A := ⟨c.actor, v.version, some c.details, .success (ev :: evs)⟩
+          match applyStored v sc with
+          | none => (p.1, .done .panic)
+          | some v' =>
+            match A.preSave v'.st (ev :: evs) with
+            | some e => (p.1, .processed v' false (some e))
+            | none => (p.1, .decided v' ch none sc)
+  | _ => p
+
+/-- … then the write `kv.store(scope, command_key, processed)` (store.rs:423 / 468). -/
+def phStore {A : Agg} (wfail : Bool) (p : Ent A × Local A) : Ent A × Local A :=
+  match p.2 with
+  | .decided v ch res sc =>
+    if wfail then (p.1, .done .kvErr)
+    else ({ p.1 with kv := p.1.kv.putCmd sc.version sc }, .processed v ch res)
+  | _ => p
+
 /-- store.rs:493-495.  Note that the success branch of `phProcess` leaves
 `changed_from_cached` as it was: after an accepted command on a cache hit the cache keeps the
 *previous* version and the next call re-applies `command-N.json` from storage in its catch-up
@@ -266,7 +303,7 @@ def phFinish {A : Agg} (p : Ent A × Local A) : Ent A × Local A :=
 instance `i`, in program order.  All of them run inside one `kv.execute(scope, …)`. -/
 def execPhases {A : Agg} (i : Nat) (cmd : Option (Sent A)) (snap wfail : Bool) :
     List (Ent A × Local A → Ent A × Local A) :=
-  [phLoad i, phCatchUp, phProcess cmd wfail, phCache i, phSnapshot snap wfail, phFinish]
+  [phLoad i, phCatchUp, phDecide cmd, phStore wfail, phCache i, phSnapshot snap wfail, phFinish]
 
 def runPhases {σ : Type} (phs : List (σ → σ)) (s : σ) : σ := phs.foldl (fun acc f => f acc) s
 
